@@ -116,6 +116,36 @@ theorem C20_lookup_exactly_live_from (c : Cfg) (s : State) (hi : Inv s) (hl : Al
   rw [(C20_unfiltered_lookups _).1]
   exact finalState_mem hi hl ops x
 
+/-- **C20 (expiry exactly at lifetime plus grace).** When nothing but time passes, a listed
+registration stays listed precisely while `now < refreshedAt + (lt + grace)·tps`. -/
+theorem C20_expiry_exact (c : Cfg) (s : State) (hi : Inv s) (hl : AllLive c s) (x : Reg)
+    (hx : x ∈ s.regs) (dt : Nat) :
+    x ∈ lookupEp (step c s (.advance dt)).1 [] ↔
+      ((s.now + dt : Nat) : Int) < (x.refreshedAt : Int) + (x.lt + c.grace) * (c.tps : Int) := by
+  rw [(C20_unfiltered_lookups _).1, step_mem (.advance dt) hi hl x]
+  have hnow : (step c s (.advance dt)).1.now = s.now + dt := by simp [step, decideOp, applyAction, purge_now]
+  rw [hnow]
+  simp only [decideOp, Action.effect, Effect.touches, hx, Reg.live, Reg.deadline, reduceCtorEq,
+    false_or, and_self, and_true, Int.natCast_add]
+  exact decide_eq_true_iff
+
+/-- an accepted write is listed at once (unless its lifetime plus grace is not positive), with
+exactly the stored value -/
+theorem C20_write_then_listed (c : Cfg) (s : State) (hi : Inv s) (hl : AllLive c s) (op : Op)
+    (r : Reg) (h : (decideOp s op).effect = .wrote r) :
+    r ∈ lookupEp (step c s op).1 [] ↔ 0 < (r.lt + c.grace) * (c.tps : Int) := by
+  rw [(C20_unfiltered_lookups _).1, step_mem op hi hl r, h]
+  have hnow : (step c s op).1.now = s.now := by
+    unfold step
+    cases hd : decideOp s op <;> simp [hd, Action.effect] at h <;> simp [applyAction, purge_now]
+  have hr : r.refreshedAt = s.now := by
+    cases hd : decideOp s op <;> simp [hd, Action.effect] at h
+    subst h
+    exact (decideOp_write hi hd).2.1
+  rw [hnow]
+  simp only [Reg.live, Reg.deadline, hr, decide_eq_true_eq, true_or, and_true]
+  omega
+
 /-- The effect log is tied to the responses: a request writes exactly when it is answered 2.01 /
 2.04, removes exactly when it is answered 2.02; an error answer has no effect. -/
 theorem C20_effect_iff_response (c : Cfg) (s : State) (op : Op) :
